@@ -302,6 +302,20 @@ func c06ServerChannel(c *fw.Ctx, cs c06Case) {
 	defer a.conn.Close()
 	ch.MyRecvBuf = 16 << 20
 	c.Eval(1)
+	// a second client with the smallest buffers connects to the same listener afterwards: what was negotiated for the
+	// first connection must stay what it is
+	acc2 := make(chan accRes, 1)
+	go func() {
+		sc, conn, err := bs.accept(&uasc.Config{SecurityPolicyURI: ua.SecurityPolicyURINone, SecurityMode: ua.MessageSecurityModeNone, Lifetime: 3600000}, 56, 1, 5)
+		acc2 <- accRes{sc, conn, err}
+	}()
+	if ch2, _, err := refpeer.Dial(strings.TrimPrefix(bs.ep, "opc.tcp://"), refpeer.ClientOpts{Sec: refpeer.Security{Mode: refpeer.ModeNone}, Hello: refpeer.Hello{RecvBuf: 8192, SendBuf: 8192, MaxMsg: 8192, MaxChunks: 1}}); err == nil {
+		defer ch2.Close()
+		if a2 := <-acc2; a2.err == nil {
+			defer a2.conn.Close()
+			c.Class("server-channel:second-connection-with-minimal-buffers", 1)
+		}
+	}
 	// the acknowledged buffers must respect both sides
 	if ack.RecvBuf > p.SendBuf || ack.RecvBuf > g.RecvBuf || ack.SendBuf > p.RecvBuf || ack.SendBuf > g.SendBuf {
 		cs.Step, cs.Detail = "acknowledge", fmt.Sprintf("server configured %+v, client hello %+v, acknowledge %+v: the receive buffer must not exceed the client's send buffer, the send buffer not the client's receive buffer", g, p, *ack)
